@@ -312,8 +312,15 @@ func runCase(in caseIn, wantCoq bool) (coq string, oracle string, nontrivial boo
 
 func hx(b []byte) *string { s := hex.EncodeToString(b); return &s }
 
+// lengths around the hash size and its double, and long str/bytes arguments
+var valueLens = []int{0, 1, 31, 32, 33, 63, 64, 65, 100, 300}
+
 func randValue(r *rand.Rand, pool [][]byte) []byte {
-	switch r.Intn(6) {
+	switch r.Intn(8) {
+	case 6, 7:
+		b := make([]byte, valueLens[r.Intn(len(valueLens))])
+		r.Read(b)
+		return b
 	case 0: // a value shared between logs
 		return pool[r.Intn(len(pool))]
 	case 1:
@@ -380,7 +387,10 @@ func foldShape(r *rand.Rand, idx []int) shapeIn {
 
 func genCase(r *rand.Rand) caseIn {
 	var in caseIn
-	sigs := [][]byte{[]byte("Transfer(Address,Address,int)"), []byte("Approval(Address,Address,int)"), []byte("ICXIssued(int,int,int,int)"), []byte("E()")}
+	sigs := [][]byte{[]byte("Transfer(Address,Address,int)"), []byte("Approval(Address,Address,int)"), []byte("ICXIssued(int,int,int,int)"), []byte("E()"),
+		[]byte("TransferBatch(Address,Address,Address,bytes,bytes,int,int,int,str)"),                                  // 66 characters
+		[]byte("Sixty4(Address,Address,Address,Address,Address,int,int,int,int)X"),                                   // 64
+		[]byte("ProposalRegistered(bytes,Address,Address,Address,Address,str,str,str,int,int,int,int,int,bool,bool)")} // 99
 	apool := make([][]byte, 3)
 	for i := range apool {
 		apool[i] = make([]byte, 21)
@@ -524,6 +534,36 @@ func gen(c *hxlib.Ctx) {
 	// the empty bloom
 	emit("empty", caseIn{Logs: []logIn{{Addr: hex.EncodeToString(make([]byte, 21))}}, Shape: shapeIn{Leaf: []int{}}, Shape2: shapeIn{Leaf: []int{0}},
 		Queries: []queryIn{{Items: []itemIn{}, Present: true}, {Items: []itemIn{{Pos: 0, V: hx([]byte("E()"))}}}}})
+	// every value length around the hash size (32) and its double (64), and long ones, at every
+	// position, under a long signature: two logs merged, each item queried on its own
+	for k := 0; k < c.N(2); k++ {
+		var in caseIn
+		for l := 0; l < 2; l++ {
+			a := make([]byte, 21)
+			r.Read(a[1:])
+			a[0] = 1
+			sig := make([]byte, []int{65, 66, 99, 130}[r.Intn(4)])
+			for i := range sig {
+				sig[i] = byte('a' + r.Intn(26))
+			}
+			lg := logIn{Addr: hex.EncodeToString(a), Indexed: []*string{hx(sig)}}
+			for _, n := range r.Perm(len(valueLens)) {
+				v := make([]byte, valueLens[n])
+				r.Read(v)
+				lg.Indexed = append(lg.Indexed, hx(v))
+			}
+			in.Logs = append(in.Logs, lg)
+		}
+		a, b := shapeIn{Leaf: []int{0}}, shapeIn{Leaf: []int{1}}
+		in.Shape = shapeIn{A: &a, B: &b}
+		in.Shape2 = shapeIn{Leaf: []int{1, 0}}
+		for l := 0; l < 2; l++ {
+			for _, it := range itemsOfLog(in.Logs[l]) {
+				in.Queries = append(in.Queries, queryIn{Items: []itemIn{it}, Present: true})
+			}
+		}
+		emit("lengths", in)
+	}
 	// the heavy kinds are spread over the shards
 	nDense, nMedium := c.N(12), c.N(30)
 	for i := 0; i < c.N(500); i++ {
@@ -569,7 +609,7 @@ func replay(raw json.RawMessage) string {
 func main() {
 	hxlib.Main(hxlib.Spec{
 		ID: "C26",
-		Rule: "random sets of 1-6 event logs (shared/sparse/random addresses; signature + 0-3 indexed values, some nil, some shared between logs; occasionally a log without indexed values) plus medium (8-23 logs) and dense (40-100 logs) sets probed with 30 absent items each; " +
+		Rule: "random sets of 1-6 event logs (shared/sparse/random addresses; signature (up to 99 characters) + 0-3 indexed values of lengths 0..300 incl. 31/32/33/63/64/65, some nil, some shared between logs; a fixed-shape case with every such length at every position; occasionally a log without indexed values) plus medium (8-23 logs) and dense (40-100 logs) sets probed with 30 absent items each; " +
 			"logs are accumulated with AddLog into receipt blooms and merged with Merge in a random tree shape (or the left fold of service/transition.go), some operands handed over as a foreign module.LogsBloom; " +
 			"a second random grouping/order (with repetitions) of the same logs must give the same bloom; the bloom is sent through CompressedBytes -> NewLogsBloomFromCompressed; " +
 			"queries: single items and multi-item filters of added logs (must be contained), absent items, present values at other positions, position 255; " +
